@@ -109,6 +109,17 @@ def abandonment_window_not_derived(ctx: Ctx, rid: str = "C05.R18") -> None:
                 return False, "unresolved"
             if is_const(src):
                 continue
+            if isinstance(src, ast.IfExp) and isinstance(src.test, ast.Compare) and len(src.test.ops) == 1 \
+                    and isinstance(src.test.left, ast.Name) and any(p.name == src.test.left.id for p in f.params) \
+                    and isinstance(src.test.comparators[0], ast.Constant) and src.test.comparators[0].value is None \
+                    and isinstance(src.test.ops[0], (ast.Is, ast.IsNot)):
+                # `DEFAULT if p is None else p`: the caller's explicit choice, the design constant when none was made
+                none_arm, given_arm = (src.body, src.orelse) if isinstance(src.test.ops[0], ast.Is) else (src.orelse, src.body)
+                par_ = next(p for p in f.params if p.name == src.test.left.id)
+                if is_const(none_arm) and isinstance(given_arm, ast.Name) and given_arm.id == par_.name \
+                        and isinstance(par_.default, ast.Constant) and par_.default.value is None:
+                    continue
+                return False, f"`{norm_text(src)[:70]}` in {f.name}"
             if isinstance(src, ast.Name) and any(p.name == src.id for p in f.params) and ctx.cfg(f).entry in ctx.rd(f).reaching(sat, src.id) \
                     and len(ctx.rd(f).reaching(sat, src.id)) == 1:
                 par = next(p for p in f.params if p.name == src.id)
